@@ -23,15 +23,17 @@ on top of stage 1 (`Model/Paginate.lean`), whose style, resume, geometry, contex
 margin definitions are reused unchanged.
 
 Grammar: stage 1 (nested `block`s, `para`s of `n` lines) where every box carries `pos` (static / abs /
-float) and `clear`. Validated restriction (driver): the root and its single child are static, and an
-absolutely positioned box has no absolutely positioned descendant (its placeholder would belong to that box's
-own `absolute_boxes` list, `absolute_block`). Round 3: out-of-flow boxes may hold out-of-flow boxes — floats in
-floats and in absolutely positioned boxes (generated), absolutely positioned boxes in floats (accepted) — which
-needs `finish_block_formatting_context` for every box that establishes a formatting context (`finishTail`), the
-translation of the placeholders inside a float when `find_float_position` moves it (`floatDone`), and the layout
-of the placeholders inside the continuation of a float with the page's (`remakePage`).
+float) and `clear`. Validated restriction (driver): the root and its single child are static.
+Round 3: out-of-flow boxes may hold out-of-flow boxes — floats in floats and in absolutely positioned boxes,
+absolutely positioned boxes in floats — which needs `finish_block_formatting_context` for every box that
+establishes a formatting context (`finishTail`), the translation of the placeholders inside a float when
+`find_float_position` moves it (`floatDone`), and the layout of the placeholders inside the continuation of a
+float with the page's (`remakePage`). Round 4: absolutely positioned boxes inside absolutely positioned boxes
+(`layoutAbs`: `absolute_block`'s own `absolute_boxes` list, laid out recursively right after the box, registered
+in `broken_out_of_flow` before it), on the page where the box starts and on the pages where it is continued.
 Repairs of /repo followed (round 3): e3ac9f0 (`finishBlock`, abort removes the placeholders of `new_children`),
-cdccac3 (`keptBroken`), 50ab141 (`placeFloat`, zero-height float).
+cdccac3 (`keptBroken`), 50ab141 then 1bc67ce (`placeFloat`, zero-height float); round 4: 24ce8bf
+(`OFrag.cutEnd` in `findEarlierGo`: the box that `find_earlier_page_break` cuts loses its bottom decoration), 0d665d0 (`floatStep`, a postponed float forgets what is nested in it).
 
 State of the Python code that is threaded explicitly (`World`):
   `context.excluded_shapes` (floats of the current block formatting context; the float *objects*, so a
@@ -371,6 +373,14 @@ def findEarlierPara (ser id idx : Nat) (st : OStyle) (n : Nat) (g : Geo) (lines 
       | some (i, _) => some (.para ser id idx st n g kept, .node 0 (lineResume n i))
       | none => none
 
+/-- `new_child.remove_decoration(start=False, end=True)` on the box that `find_earlier_page_break` cuts
+(repair 24ce8bf): unless `box-decoration-break: clone`, the bottom margin, padding and border go (the height
+is not recomputed). -/
+def OFrag.cutEnd : OFrag → OFrag
+  | .para ser id idx st n g lines => .para ser id idx st n (g.cutBottom st.toPStyle) lines
+  | .block ser id idx st g kids => .block ser id idx st (g.cutBottom st.toPStyle) kids
+  | f => f
+
 mutual
 /-- The reversed loop of `find_earlier_page_break(children)`, as a right fold. Children out of the
 normal flow are passed over (`is_in_normal_flow()` guards both halves of the loop body); the resume
@@ -393,7 +403,8 @@ def findEarlierGo : List OFrag → EarlierState
         | none =>
           if !avoidsPage x.brkInside then
             match findEarlierFrag x with
-            | some (x', r) => { found := some ([x'], .node x.idx (some r)), prev := some x, nxt := some x.idx }
+            | some (x', r) =>
+              { found := some ([x'.cutEnd], .node x.idx (some r)), prev := some x, nxt := some x.idx }
             | none => { found := none, prev := some x, nxt := some x.idx }
           else { found := none, prev := some x, nxt := some x.idx }
 def findEarlierFrag : OFrag → Option (OFrag × Resume)
@@ -707,14 +718,15 @@ def floatY (shapes : List Shape) (clear : Bool) (y0 : Rat) : Rat :=
   | some cl => y0 + cl
   | none => y0
 
-/-- `find_float_position`: not above the last float; then `avoid_collisions` (a float whose border box
-is 0 high stays where it is — repair 50ab141; it went to y = 0 before). -/
+/-- `find_float_position`: not above the last float; then `avoid_collisions` (since repair 1bc67ce a float
+whose border box is 0 high is placed like any other: it went to y = 0 before 50ab141, stayed at its static
+position over the other floats before 1bc67ce). -/
 def placeFloat (shapes : List Shape) (f : OFrag) : OFrag :=
   let f := match shapes.getLast? with
     | some l => if f.geo.y < l.y then f.translate (l.y - f.geo.y) else f
     | none => f
   let g := f.geo
-  let y2 : Rat := if g.borderHeight = 0 then g.y else avoidY shapes g.marginHeight (shapes.length + 1) g.y
+  let y2 : Rat := avoidY shapes g.marginHeight (shapes.length + 1) g.y
   f.translate (y2 - g.y)
 
 /-- `float_layout`, end (`find_float_position`, `context.excluded_shapes.append(box)`): the placed
@@ -746,6 +758,9 @@ def floatStep (c : Ctx) (index : Nat) (pageIsEmpty : Bool) (bs : Rat) (child : O
       (none, { s with newChildren := s.newChildren ++ [f.withIdx index], w := w,
                       localBroken := s.localBroken ++ broken })
     else
+      -- `remove_placeholders(context, [new_child], …)` (repair 0d665d0): the float is laid out again on the next
+      -- page, the placeholders and cut floats nested in this discarded layout are forgotten
+      let w := w.remove (fragSers f)
       let pb := breakBetween (lastInFlow s.newChildren) child
       let earlier := if !s.newChildren.isEmpty && avoidsPage pb then findEarlierList s.newChildren else none
       match earlier with
@@ -856,6 +871,53 @@ def emptyRoot : OBox → OBox
   | .para id _ lineH st => .para id 0 lineH st
   | .block id st _ => .block id st []
 
+mutual
+/-- `placeholder.set_laid_out_box(new_box)` seen from the tree. -/
+def substAbs (res : List (Nat × OFrag)) : OFrag → OFrag
+  | .para ser id idx st n g lines => .para ser id idx st n g lines
+  | .block ser id idx st g kids => .block ser id idx st g (substAbsList res kids)
+  | .ph ser id idx y => match res.lookup ser with
+    | some f => f
+    | none => .ph ser id idx y
+def substAbsList (res : List (Nat × OFrag)) : List OFrag → List OFrag
+  | [] => []
+  | f :: fs => substAbs res f :: substAbsList res fs
+end
+
+mutual
+def boxDepth : OBox → Nat
+  | .para _ _ _ _ => 1
+  | .block _ _ kids => 1 + kidsDepth kids
+def kidsDepth : List OBox → Nat
+  | [] => 0
+  | k :: ks => max (boxDepth k) (kidsDepth ks)
+end
+
+/-- `absolute_box_layout` / `absolute_block` (vertical part, `top = bottom = auto`): the box is laid out in a
+formatting context of its own with a *fresh* `absolute_boxes` list ("this box is the containing block for
+absolute descendants"), `bottom_space = 0`; then every placeholder collected in that list (absolutely positioned
+boxes nested in it, also those inside floats nested in it) is laid out in turn by `absolute_layout` — recursively,
+`fuel` = nesting depth —, replaces its placeholder in the fragment tree (`set_laid_out_box`) and is registered in
+`context.broken_out_of_flow` if it is cut: before its containing box is (which the caller registers). The
+caller's `absolute_boxes` and `excluded_shapes` are untouched. -/
+def layoutAbs (c : Ctx) : (fuel : Nat) → OBox → (idx : Nat) → (y : Rat) → Option Resume → World → LayoutResult
+  | 0, box, idx, y, skip, w =>
+    let r := layoutBox c box idx y 0 skip false true [] { w with shapes := [], absL := [] }
+    { r with w := { r.w with shapes := w.shapes, absL := w.absL } }
+  | fuel + 1, box, idx, y, skip, w =>
+    let r := layoutBox c box idx y 0 skip false true [] { w with shapes := [], absL := [] }
+    let wa := r.w.absL.foldl (fun (acc : World × List (Nat × OFrag)) (e : AbsEntry) =>
+        let rn := layoutAbs c fuel e.box e.idx e.y none acc.1
+        match rn.frag with
+        | none => ({ rn.w with crash := true }, acc.2)
+        | some f =>
+          let broken : List Broken := match rn.resume with
+            | some ρ => [{ ser := e.ser, box := e.box, idx := e.idx, resume := ρ, oof := e.oof }]
+            | none => []
+          ({ rn.w with broken := rn.w.broken ++ broken }, acc.2 ++ [(e.ser, f)]))
+      ({ r.w with absL := [] }, [])
+    { r with frag := r.frag.map (substAbs wa.2), w := { wa.1 with shapes := w.shapes, absL := w.absL } }
+
 /-- One iteration of the `for box, containing_block, skip_stack in context_out_of_flow` loop of
 `make_page`: the continuation of a float / absolutely positioned box cut on the previous page, laid out at
 `rootTop` in a formatting context of its own; a float is then placed among the page's shapes. -/
@@ -872,8 +934,8 @@ def contStep (c : Ctx) (rootTop : Rat) (acc : World × List OFrag) (e : Broken) 
         | none => []
       ({ w' with broken := w'.broken ++ broken }, acc.2 ++ [f])
   else
-    let r := layoutBox c e.box e.idx rootTop 0 (some e.resume) false true [] { w with shapes := [] }
-    let w' := { r.w with shapes := w.shapes }
+    let r := layoutAbs c (boxDepth e.box) e.box e.idx rootTop (some e.resume) w
+    let w' := r.w
     match r.frag with
     | none => ({ w' with crash := true }, acc.2)
     | some f =>
@@ -887,8 +949,8 @@ def contStep (c : Ctx) (rootTop : Rat) (acc : World × List OFrag) (e : Broken) 
 `skip_stack = None`): the laid-out box by serial, and the `broken_out_of_flow` item if it is cut. -/
 def absStep (c : Ctx) (acc : World × List (Nat × OFrag)) (e : AbsEntry) : World × List (Nat × OFrag) :=
   let w := acc.1
-  let r := layoutBox c e.box e.idx e.y 0 none false true [] { w with shapes := [] }
-  let w' := { r.w with shapes := w.shapes }
+  let r := layoutAbs c (boxDepth e.box) e.box e.idx e.y none w
+  let w' := r.w
   match r.frag with
   | none => ({ w' with crash := true }, acc.2)
   | some f =>
@@ -897,18 +959,6 @@ def absStep (c : Ctx) (acc : World × List (Nat × OFrag)) (e : AbsEntry) : Worl
       | none => []
     ({ w' with broken := w'.broken ++ broken }, acc.2 ++ [(e.ser, f)])
 
-mutual
-/-- `placeholder.set_laid_out_box(new_box)` seen from the tree. -/
-def substAbs (res : List (Nat × OFrag)) : OFrag → OFrag
-  | .para ser id idx st n g lines => .para ser id idx st n g lines
-  | .block ser id idx st g kids => .block ser id idx st g (substAbsList res kids)
-  | .ph ser id idx y => match res.lookup ser with
-    | some f => f
-    | none => .ph ser id idx y
-def substAbsList (res : List (Nat × OFrag)) : List OFrag → List OFrag
-  | [] => []
-  | f :: fs => substAbs res f :: substAbsList res fs
-end
 
 /-- `context.finish_block_formatting_context(root_box)` (auto height: down to the lowest float) and
 `root_box.children = out_of_flow_boxes + root_box.children`. -/
